@@ -16,8 +16,6 @@ import (
 func init() {
 	nop := func(fr *frame, args []value) value { return nil }
 	for _, n := range []string{
-		"(*sync.Mutex).Lock", "(*sync.Mutex).Unlock",
-		"(*sync.RWMutex).Lock", "(*sync.RWMutex).Unlock", "(*sync.RWMutex).RLock", "(*sync.RWMutex).RUnlock",
 		"(*sync.WaitGroup).Add", "(*sync.WaitGroup).Done", "(*sync.WaitGroup).Wait",
 		"(*sync.Pool).Put",
 		"runtime.SetFinalizer", "runtime.KeepAlive", "runtime.Gosched",
@@ -30,7 +28,79 @@ func init() {
 	} {
 		externals[n] = nop
 	}
-	externals["(*sync.Mutex).TryLock"] = func(fr *frame, args []value) value { return true }
+	// Mutexes: no-ops by default (a path is one sequential execution). A
+	// harness marked "locks" has them tracked per path: acquiring a lock the
+	// one thread of execution already holds is a deadlock (reported as a
+	// panic), and TryLock/TryRLock answer from the tracked state - which lets a
+	// harness ask at a scheduling point whether a concurrent actor could enter
+	// a critical section right now.
+	lockOp := func(op string) externalFn {
+		return func(fr *frame, args []value) value {
+			ps := fr.i.ps
+			if ps == nil || !fr.i.w.e.TrackLocks {
+				if op == "trylock" || op == "tryrlock" {
+					return true
+				}
+				return nil
+			}
+			key, _ := args[0].(*value)
+			if ps.locks == nil {
+				ps.locks = map[*value]*lockState{}
+			}
+			st := ps.locks[key]
+			if st == nil {
+				st = &lockState{}
+				ps.locks[key] = st
+			}
+			deadlock := func(what string) {
+				panic(targetPanic{iface{fr.i.runtimeErrorString, "deadlock: " + what + " in " + fr.fn.String()}})
+			}
+			switch op {
+			case "lock":
+				if st.writer || st.readers > 0 {
+					deadlock("Lock of a mutex already held by this thread of execution")
+				}
+				st.writer = true
+			case "trylock":
+				if st.writer || st.readers > 0 {
+					return false
+				}
+				st.writer = true
+				return true
+			case "unlock":
+				if !st.writer {
+					panic(targetPanic{iface{fr.i.runtimeErrorString, "sync: unlock of unlocked mutex"}})
+				}
+				st.writer = false
+			case "rlock":
+				if st.writer {
+					deadlock("RLock of a mutex write-locked by this thread of execution")
+				}
+				st.readers++
+			case "tryrlock":
+				if st.writer {
+					return false
+				}
+				st.readers++
+				return true
+			case "runlock":
+				if st.readers == 0 {
+					panic(targetPanic{iface{fr.i.runtimeErrorString, "sync: RUnlock of unlocked RWMutex"}})
+				}
+				st.readers--
+			}
+			return nil
+		}
+	}
+	externals["(*sync.Mutex).Lock"] = lockOp("lock")
+	externals["(*sync.Mutex).Unlock"] = lockOp("unlock")
+	externals["(*sync.Mutex).TryLock"] = lockOp("trylock")
+	externals["(*sync.RWMutex).Lock"] = lockOp("lock")
+	externals["(*sync.RWMutex).Unlock"] = lockOp("unlock")
+	externals["(*sync.RWMutex).TryLock"] = lockOp("trylock")
+	externals["(*sync.RWMutex).RLock"] = lockOp("rlock")
+	externals["(*sync.RWMutex).RUnlock"] = lockOp("runlock")
+	externals["(*sync.RWMutex).TryRLock"] = lockOp("tryrlock")
 	externals["(*sync.Pool).Get"] = func(fr *frame, args []value) value {
 		p := (*args[0].(*value)).(structure)
 		// Pool struct: the New field is the last one
